@@ -96,14 +96,19 @@ func (x *Exec) siteName(fn *ssa.Function, kind string, pos token.Pos, detail str
 }
 
 func (x *Exec) oblige(st *State, fn *ssa.Function, kind, detail, goal string) {
-	if goal == "true" {
-		x.trivial++
-		return
-	}
 	if fn == nil {
 		fn = x.root
 	}
 	name := x.siteName(fn, kind, 0, detail) + x.caseSuffix()
+	if goal == "true" {
+		// folded to true on this path (e.g. a type test on a pinned dynamic type): nothing to ask a solver, but the
+		// obligation was generated - the vacuity guard (expected obligations) must see it
+		x.trivial++
+		x.e.trivMu.Lock()
+		x.e.trivNames[name] = true
+		x.e.trivMu.Unlock()
+		return
+	}
 	o := &Obligation{Name: name, Func: x.e.shortName(x.root), Kind: kind, Goal: goal, Groups: map[string]bool{}}
 	o.Cmds = append([]string(nil), st.cmds...)
 	for g := range st.groups {
@@ -1577,6 +1582,9 @@ func (e *Engine) ifaceID(it *types.Interface) int {
 // source line, ghost assignments after its last instruction on this path.
 func (x *Exec) lineHooks(st *State, fr *frame, in ssa.Instruction) {
 	ct := x.e.contracts[x.e.shortName(fr.fn)]
+	if x.c != nil && funcOf(x.c.Name) == x.e.shortName(fr.fn) && len(x.c.Ats) > 0 {
+		ct = x.c // a variant contract (f#v) of the function under verification brings its own hooks
+	}
 	if ct == nil || len(ct.Ats) == 0 {
 		return
 	}
